@@ -114,10 +114,13 @@ class IFuture:
 
 
 class InterleavedThreadPool:
-    def __init__(self, max_workers=None, *a, **k):
+    def __init__(self, max_workers=None, thread_name_prefix='', initializer=None, initargs=(), **k):
         self.W = int(max_workers) if max_workers is not None else 4
         self.q = []
         self.sched = SCHED
+        self.initializer = initializer
+        self.initargs = initargs
+        self.nthreads_started = 0
 
     def __enter__(self):
         return self
@@ -128,6 +131,15 @@ class InterleavedThreadPool:
         return False
 
     def submit(self, fn, *a, **k):
+        if self.initializer is not None and self.nthreads_started < self.W:
+            # a real executor starts one more worker thread for this submit; the thread runs the initializer first
+            self.nthreads_started += 1
+            init, ia, f0 = self.initializer, self.initargs, fn
+
+            def fn(*aa, **kk):
+                init(*ia)
+                yield_point()
+                return f0(*aa, **kk)
         t = CTask(self.sched, fn, a, k, len(self.q))
         self.q.append(t)
         return IFuture(self, t)
